@@ -179,6 +179,7 @@ int main() {{
         matrix_type m(NEQUATIONS, NEQUATIONS);
         Jac j(&d); j(x, m, 0.0, dfdt);
         for (int r = 0; r < NEQUATIONS; r++) for (int c = 0; c < NEQUATIONS; c++) {{ double v = m(r, c); put(o, &v, 1); }}
+        for (int i = 0; i < NEQUATIONS; i++) {{ double v = dfdt[i]; put(o, &v, 1); }}
         free(k); free(y);
     }}
     fclose(o);
@@ -206,7 +207,7 @@ int main() {{
         vals = struct.unpack(f"<{len(raw)//8}d", raw)
         ncool = macros.value("NCOOLPROCS") if "NCOOLPROCS" in macros.text else 0
         nx = ncool + 3
-        per = nreac + neq + nx + (neq * neq if backend not in ("sparse", "cusparse") else (neq + 1 + 2 * nnz))
+        per = nreac + neq + nx + (neq * neq if backend not in ("sparse", "cusparse") else (neq + 1 + 2 * nnz)) + (neq if backend == "rosenbrock4" else 0)
         if len(vals) != ng * per:
             raise HarnessError(f"oderun: {len(vals)} doubles, expected {ng*per}")
         out = []
@@ -228,7 +229,8 @@ int main() {{
                 out.append({"k": k, "ydot": yd, "jac": jac, "csr": (rp, cv, dv), **extras})
             else:
                 jac = {(r, c): rest[r * neq + c] for r in range(neq) for c in range(neq)}
-                out.append({"k": k, "ydot": yd, "jac": jac, "csr": None, **extras})
+                more = {"dfdt": list(rest[neq * neq : neq * neq + neq])} if backend == "rosenbrock4" else {}
+                out.append({"k": k, "ydot": yd, "jac": jac, "csr": None, **extras, **more})
         return {"runs": out, "neq": neq, "nreac": nreac, "nnz": nnz}
     finally:
         shutil.rmtree(d, ignore_errors=True)
